@@ -20,6 +20,15 @@ MAX_PRINTED = 12
 UNIT_ALARM_S = int(os.environ.get("MC_UNIT_ALARM", "600"))
 
 
+def _keep_smallest(lst, w):
+    """Keep the MAX_WITNESSES smallest witnesses (shortest counterexamples first)."""
+    if w in lst:
+        return
+    lst.append(w)
+    lst.sort(key=lambda x: (len(repr(x)), repr(x)))
+    del lst[MAX_WITNESSES:]
+
+
 class Acc:
     """Mergeable result of a work unit."""
 
@@ -34,8 +43,7 @@ class Acc:
     def violation(self, key: str, witness: Dict[str, Any], detail: str = ""):
         v = self.viol.setdefault(key, {"count": 0, "witnesses": [], "detail": detail})
         v["count"] += 1
-        if len(v["witnesses"]) < MAX_WITNESSES:
-            v["witnesses"].append(witness)
+        _keep_smallest(v["witnesses"], witness)
 
     def sample(self, s, cap=3):
         if len(self.samples) < cap:
@@ -54,8 +62,7 @@ class Acc:
             m = self.viol.setdefault(k, {"count": 0, "witnesses": [], "detail": v["detail"]})
             m["count"] += v["count"]
             for w in v["witnesses"]:
-                if len(m["witnesses"]) < MAX_WITNESSES:
-                    m["witnesses"].append(w)
+                _keep_smallest(m["witnesses"], w)
         for s in o.samples:
             if len(self.samples) < 8:
                 self.samples.append(s)
